@@ -117,6 +117,46 @@ func (h *seqHist) opClone() {
 	h.r.Count("op_clone", 1)
 }
 
+// opSwap makes one of the frozen copies the active one (and freezes the active one): later edits then go to the other
+// side of an earlier Clone, while the copy edited so far is only re-observed.
+func (h *seqHist) opSwap() {
+	if len(h.frozen) == 0 {
+		return
+	}
+	k := h.r.Rng.Intn(len(h.frozen))
+	f := h.frozen[k]
+	h.frozen[k] = seqFrozen{h.m, h.x, h.m.snapshot(), "copy edited before the swap"}
+	h.x, h.m = f.x, f.m
+	h.Ops = append(h.Ops, "continue on the "+f.what)
+	h.r.Count("op_swap", 1)
+}
+
+// opAppend appends letters to a linear sequence through AppendLetters / AppendQLetters.
+func (h *seqHist) opAppend() {
+	if !h.m.isLinear() {
+		return
+	}
+	n := 1 + h.r.Rng.Intn(4)
+	ql, l, q := h.genQL(n)
+	var err error
+	if h.m.hasQ() {
+		err = h.x.(interface {
+			AppendQLetters(...alphabet.QLetter) error
+		}).AppendQLetters(ql...)
+	} else {
+		err = h.x.(interface {
+			AppendLetters(...alphabet.Letter) error
+		}).AppendLetters(alphabet.BytesToLetters(append([]byte(nil), l...))...)
+	}
+	h.Ops = append(h.Ops, fmt.Sprintf("Append(%s)", l))
+	if err != nil {
+		h.fail("append-error", "append returned "+err.Error())
+		return
+	}
+	h.appendToRow(0, l, q)
+	h.r.Count("op_append", 1)
+}
+
 func (h *seqHist) opSet() {
 	rng := h.r.Rng
 	ri := rng.Intn(len(h.m.Rows))
